@@ -1435,6 +1435,9 @@ def eval_guard(c, a, st, v):
     flags = kahn_flags(st)
     if not flags:
         # no operation at all, or the loop never ran: flags are the initial fill
+        if is_fail(v):
+            c.ob("REJ", "eval refuses only when some operation is unvisited",
+                 "None ⇒ the layering found an unvisited operation (this path returns None without consulting it)", False, st)
         return
     X = sorted(flags, key=repr)[0]
     # the array whose maximum the guard reads: the loop-carried flags, or the flags after one more step of the loop
